@@ -51,7 +51,7 @@ PROPS_EQ = {
                         'missed by the aged stream only is a violation - unless the passive solver seam saw the '
                         'outermost solver or the last inner composition solve of that call leave unconverged '
                         '(iteration cap / growing-error exit, silent in thermosteam): listed finding KF-C04-5 '
-                        '(region C04-silent-iteration-cap, about 2.5 % of calls)',
+                        '(region C04-silent-iteration-cap, about 4 % of calls)',
                         'seeded sampling inside the stated input domain, not exhaustive'],
         'components': COMPONENTS_EQ,
     },
